@@ -54,13 +54,22 @@ def validDenom (d : String) : Bool :=
 /-- `strings.HasPrefix(d, "lpt")` -/
 def hasLptPrefix (d : String) : Bool := ("lpt".toList).isPrefixOf d.toList
 
-def allDigits (s : String) : Bool := !s.isEmpty && s.toList.all (fun c => c ≥ '0' && c ≤ '9')
-def digitsVal (s : String) : Nat := s.toList.foldl (fun n c => 10 * n + (c.toNat - '0'.toNat)) 0
+/-- `strings.Split(s, "-")` on a character list (structural, so that closed instances reduce in the kernel) -/
+def splitDash : List Char → List (List Char)
+  | [] => [[]]
+  | c :: cs =>
+    if c = '-' then [] :: splitDash cs
+    else match splitDash cs with
+      | [] => [[c]]
+      | w :: ws => (c :: w) :: ws
+
+def allDigitsL (s : List Char) : Bool := !s.isEmpty && s.all (fun c => c ≥ '0' && c ≤ '9')
+def digitsValL (s : List Char) : Nat := s.foldl (fun n c => 10 * n + (c.toNat - '0'.toNat)) 0
 
 /-- `types.ParseLptDenom` succeeds: exactly two `-`-separated parts, the second a base-10 uint64. -/
 def validLptDenom (d : String) : Bool :=
-  match d.splitOn "-" with
-  | [_, n] => allDigits n && digitsVal n < 2 ^ 64
+  match splitDash d.toList with
+  | [_, n] => allDigitsL n && decide (digitsValL n < 2 ^ 64)
   | _ => false
 
 /-! ## state -/
